@@ -13,7 +13,8 @@ comma separated code points, `-` = empty):
   class K <mro> <bases|-> <pmap|~> <wrappers|->
                                         class K(bases or MCallerHttp): [_HTTP_PREFIX_MAP = pmap]; wrappers
                                         name=<comps>/name=<comps>=<inner>…, comps = n | e | comp+comp…; a wrapper with
-                                        <inner> is `def name(self, …): return self.<inner>(…)`; every other wrapper is
+                                        <inner> is `def name(self, …): return self.<inner>(…)`; with `*` for <inner> the
+                                        body reaches get_conn() through a helper method shared by all such wrappers; every other wrapper is
                                         `@method_http(None, comps) def name(self, …): self.get_conn().<verb>(path + "~<k>", …)`
                                         with k = number of the class (order of creation); mro = K.__mro__ as Python
                                         computes it (names, K first)
@@ -33,6 +34,10 @@ comma separated code points, `-` = empty):
             u/<key>   process_response: rv[key] if rv is a dict with that key     k   len(rv) of list/str/dict
             f         [x for x in rv if x] of a list          z   rv if rv else None
             e/q | e/r raises ValueError in process_req_args | in process_response
+            adapters that REBIND a field of req_args to a new object (never touch the caller's):
+            q/<k>/<v> req_args.params = list(pairs of req_args.params) + [(k, v)]
+            w/<key>   req_args.data = {key: req_args.data} for a structured body
+            X/<tag>   as x/<tag>, but req_args.headers is first rebound to a new dict
   adapters: adapter;adapter;... | -
   target  : c=<C> | s=<address> (str) | a=<address>=<0|1> ([address, send_request_ids]) | d=<address>=<0|1> (dict)
   own     : n | o=<adapter> | l=<L>
@@ -260,7 +265,36 @@ def _adapter_classes():
                 if not self.on_request:
                     raise ValueError("adapter refuses the response")
                 return return_value
-        _TRACE["cls"] = {"x": Trace, "u": Unwrap, "k": Count, "f": Compact, "z": Nullify, "e": Boom}
+        class TraceRebind(Trace):
+            """the same tracing, but `req_args.headers` is rebound to a new dict first (not mutated)"""
+
+            def process_req_args(self, req_args):
+                req_args.headers = dict(req_args.headers)
+                Trace.process_req_args(self, req_args)
+
+        class AddParam(ch.RequestAdapter):
+            """adds a query parameter; rebinds `req_args.params` (the caller's object is never touched)"""
+
+            def __init__(self, key, value):
+                self.key, self.value = key, value
+
+            def process_req_args(self, req_args):
+                cur = req_args.params
+                items = list(cur.items()) if isinstance(cur, dict) else list(cur or [])
+                req_args.params = items + [(self.key, self.value)]
+
+        class WrapData(ch.RequestAdapter):
+            """wraps a structured body into an envelope; rebinds `req_args.data`"""
+
+            def __init__(self, key):
+                self.key = key
+
+            def process_req_args(self, req_args):
+                d = req_args.data
+                if d is not None and not isinstance(d, (bytes, str)):
+                    req_args.data = {self.key: d}
+        _TRACE["cls"] = {"x": Trace, "u": Unwrap, "k": Count, "f": Compact, "z": Nullify, "e": Boom,
+                         "X": TraceRebind, "q": AddParam, "w": WrapData}
     return _TRACE["cls"]
 
 
@@ -288,8 +322,12 @@ def parse_adapter(tok):
         return ("p", dec_str(f[1]))
     if f[0] in ("b", "c") and len(f) == 3:
         return (f[0], dec_str(f[1]), dec_str(f[2]))
-    if f[0] in ("t", "x", "u") and len(f) == 2:
+    if f[0] in ("t", "x", "u", "w") and len(f) == 2:
         return (f[0], dec_str(f[1]))
+    if f[0] == "X" and len(f) == 2:
+        return ("x", dec_str(f[1]), "rebind")        # for the oracle the same adapter as x
+    if f[0] == "q" and len(f) == 3:
+        return ("q", dec_str(f[1]), dec_str(f[2]))
     if f[0] in ("k", "f", "z") and len(f) == 1:
         return (f[0],)
     if f[0] == "e" and len(f) == 2 and f[1] in ("q", "r"):
@@ -408,7 +446,7 @@ def parse_wrappers(tok):
     out = []
     for w in tok.split("/"):
         f = w.split("=")
-        out.append((dec_str(f[0]), parse_comps_tok(f[1]), dec_str(f[2]) if len(f) > 2 else None))
+        out.append((dec_str(f[0]), parse_comps_tok(f[1]), (f[2] if f[2] == "*" else dec_str(f[2])) if len(f) > 2 else None))
     return out
 
 
@@ -444,7 +482,11 @@ def make_adapter(d):
     if d[0] == "t":
         return ch.TokenAuthConn.Adapter(d[1])
     cls = _adapter_classes()[d[0]]
-    if d[0] in ("x", "u"):
+    if d[0] == "x" and len(d) == 3:
+        return _adapter_classes()["X"](d[1])
+    if d[0] == "q":
+        return cls(d[1], d[2])
+    if d[0] in ("x", "u", "w"):
         return cls(d[1])
     if d[0] == "e":
         return cls(d[1] == "q")
@@ -460,6 +502,11 @@ def enc_snapshot(values):
         except ValueError:
             out.append(repr(v))
     return out
+
+
+def _shared_conn(self):
+    """one function (one code object) through which wrappers of different components reach get_conn()"""
+    return self.get_conn()
 
 
 class _BadOp(Exception):
@@ -511,7 +558,10 @@ class Env:
         idx = len(self.class_order)
         for m, comps, inner in parse_wrappers(wrappers_tok):
             ns = {}
-            if inner is None:
+            if inner == "*":    # get_conn() is reached through a helper method shared by all such wrappers
+                exec("def %s(self, fn):\n    'http wrapper'\n    return fn(self._shared_conn(), '~%d')\n" % (m, idx), ns)
+                body["_shared_conn"] = _shared_conn
+            elif inner is None:
                 exec("def %s(self, fn):\n    'http wrapper'\n    return fn(self.get_conn(), '~%d')\n" % (m, idx), ns)
             else:       # a wrapper that is implemented by another wrapper
                 exec("def %s(self, fn):\n    'http wrapper'\n    return self.%s(fn)\n" % (m, inner), ns)
@@ -839,7 +889,8 @@ class ClassTable:
         bases = [int(b) for b in bases_tok.split(";")] if bases_tok != "-" else []
         ws = parse_wrappers(wrappers_tok)
         self.decl[name] = {"bases": bases, "pmap": None if pmap_tok == "~" else parse_pairs(pmap_tok),
-                           "wrappers": {m: c for m, c, _ in ws}, "inner": {m: i for m, _, i in ws if i is not None}}
+                           "wrappers": {m: c for m, c, _ in ws},
+                           "inner": {m: i for m, _, i in ws if i is not None and i != "*"}}
         self.order.append(name)
         sh = type("S%d" % name, tuple(self.shadow[b] for b in bases) or (object,), {})
         self.shadow[name] = sh
@@ -951,13 +1002,19 @@ def check_request(node, base, f, dicts, rep, what, suffix="", exact=None):
         want_trace = (headers or {}).get("X-Trace", "") + "".join(tags) if tags else ch.get("x-trace")
         got_trace = r["h"].get("x-trace", (None, None))[1]
         trace_ok = got_trace == want_trace or ("x-trace" in ch and "X-Trace" not in (headers or {}))
-        if not (canon_url(r["u"]) == expected_url(address, p, params) and trace_ok):
+        # params / data adapters rebind req_args.params / .data: the url and the body are made from what the chain left
+        cparams = params
+        for a in chain:
+            if a[0] == "q":
+                cur = cparams
+                cparams = (list(cur.items()) if isinstance(cur, dict) else list(cur or [])) + [(a[1], a[2])]
+        if not (canon_url(r["u"]) == expected_url(address, p, cparams) and trace_ok):
             return "chain: %s: url / applied adapters do not match the declared layering (%s)" % (what, r["u"])
         # -- "goes to address + path": exactly one '/' between the address and the path, judged character by
         # character where both are in normal form (address without a trailing '/' and a path with at most one leading
         # '/', or address with one trailing '/' and a relative path); the joints between prefixes stay lenient
         if exact is not None:
-            query = "?" + urlencode(params) if params else ""
+            query = "?" + urlencode(cparams) if cparams else ""
             wants = set()
             for pp in prefixed_paths(chain, path):
                 lead = len(pp) - len(pp.lstrip("/"))
@@ -1003,13 +1060,22 @@ def check_request(node, base, f, dicts, rep, what, suffix="", exact=None):
         return msgs[0]
     if r is None:
         return None
+    # -- what the chain leaves in req_args.data (data wrappers rebind it), for every acceptable order
+    datas_left = []
+    for chain in chains:
+        d = data
+        if d is not None and not isinstance(d, (bytes, str)):
+            for a in chain:
+                if a[0] == "w":
+                    d = {a[1]: d}
+        datas_left.append(d)
     # -- method
     if verb.startswith("raw="):
         m = verb[4:]
-        want_m = dec_str(m).upper() if m not in ("n", "-") else ("POST" if data else "GET")
+        want_ms = {dec_str(m).upper()} if m not in ("n", "-") else {"POST" if d else "GET" for d in datas_left}
     else:
-        want_m = verb.upper()
-    if r["m"] != want_m:
+        want_ms = {verb.upper()}
+    if r["m"] not in want_ms:
         return "method: %s sent as %s" % (what, r["m"])
     # -- body by type
     if data is None:
@@ -1021,8 +1087,9 @@ def check_request(node, base, f, dicts, rep, what, suffix="", exact=None):
     else:
         want_d = None
         try:
-            if json.loads(r["d"].decode("utf-8")) != data:
-                return "body: %s: structured body does not read back" % what
+            wants_d = [enc_json(d) for d in datas_left]
+            if enc_json(json.loads(r["d"].decode("utf-8"))) not in wants_d:
+                return "body: %s: structured body does not read back as what the chain left in req_args.data" % what
         except Exception:
             return "body: %s: structured body is not json" % what
         ct = r["h"].get("content-type")
@@ -1254,6 +1321,8 @@ TYPED_DICTS = [{"param": 25, "flag": False, "none": None, "s": "x"}, {"n": 0}, {
 def enc_adapter(d):
     if d[0] == "e":
         return "e/" + d[1]
+    if d[0] == "x" and len(d) == 3:
+        return "X/" + enc_str(d[1])
     return "/".join([d[0]] + [enc_str(x) for x in d[1:]])
 
 
@@ -1282,7 +1351,7 @@ def enc_wrappers(ws):
     out = []
     for m, c in ws.items():
         if isinstance(c, tuple):
-            out.append("%s=%s=%s" % (enc_str(m), enc_comps(c[0]), enc_str(c[1])))
+            out.append("%s=%s=%s" % (enc_str(m), enc_comps(c[0]), "*" if c[1] == "*" else enc_str(c[1])))
         else:
             out.append("%s=%s" % (enc_str(m), enc_comps(c)))
     return "/".join(out) if out else "-"
@@ -1328,7 +1397,7 @@ class Builder:
 
     def adapter(self, auth_ok=True):
         rng = self.rng
-        k = rng.choice("pppxxxbctukfzukfz" if auth_ok else "pppxxxukfzukfz")
+        k = rng.choice("pppxxxbctukfzukfzqqw" if auth_ok else "pppxxxukfzukfzqqw")
         if rng.random() < 0.03:
             k = "e"
         self.kinds.add("adapter:" + k)
@@ -1336,7 +1405,14 @@ class Builder:
             return ("p", self.rstr(PREFIXES).replace(" ", "_"))
         if k == "x":
             self.tag += 1
+            if rng.random() < 0.3:
+                self.kinds.add("adapter:x-rebinding-headers")
+                return ("x", "%d." % self.tag, "rebind")
             return ("x", "%d." % self.tag)
+        if k == "q":       # rebinds req_args.params
+            return ("q", rng.choice(["api_key", "tenant", "a", "ids", "k k"]), self.rstr(["K-1", "t 1", "", "ü&="]))
+        if k == "w":       # rebinds req_args.data
+            return ("w", rng.choice(["payload", "env", "é"]))
         if k == "t":
             return ("t", self.rstr(["tok", "a.b-c", ""]))
         if k == "u":
@@ -1442,6 +1518,10 @@ class Builder:
             pm = rng.choice(PMAPS)
             self.kinds.add("class:single")
             ws = {"m%d" % i: self.comps_for(pm) for i in range(rng.choice([2, 3, 4]))}
+            if rng.random() < 0.4:
+                # the wrappers reach get_conn() through one helper method shared by all of them
+                self.kinds.add("class:shared-helper")
+                ws = {m: (c, "*") for m, c in ws.items()}
             if rng.random() < 0.35:
                 # a wrapper implemented by another wrapper of (usually) another component, defined before / after it
                 self.kinds.add("class:nested-call")
@@ -1704,6 +1784,21 @@ def _corpus():
                    "caller 4 c=3 1", "caller 5 c=3 2",
                    "call 4 %s get %s n n n E 0" % (e("outer"), e("/x")), "call 4 %s get %s n n n E 0" % (e("late"), e("/x")),
                    "call 5 %s get %s n n n E 0" % (e("outer"), e("/x")), "call 4 %s get %s n n n E 0" % (e("inner"), e("/x"))]},
+        # adapters that rebind req_args.params / .data / .headers (the caller passes None, a dict, a pair list); two
+        # wrappers of different components that reach get_conn() through one shared helper, called in both orders
+        {"lines": ["list 1 q/%s/%s;w/%s;X/%s" % (e("api_key"), e("K-1"), e("payload"), e("1.")),
+                   "mk 2 s=%s l=1 H" % e("http://h"), "mk 3 c=2 o=q/%s/%s H" % (e("tenant"), e("t 1")),
+                   "dict 4 %s=%s" % (e("q"), e("a b")), "pairs 5 l %s" % enc_typed_pairs([("ids", 1), ("ids", 2)]),
+                   "data 6 %s" % enc_json({"a": 1}),
+                   "req 2 get %s n n n E 0" % e("/items"), "req 3 post %s 4 j=6 n E 0" % e("/find"),
+                   "req 3 get %s 5 n n E 0" % e("/find"), "req 2 get %s 4 n 4 E 0" % e("/items"),
+                   "class 7 7 - %s=%s;%s=%s %s=%s=*/%s=%s=*/%s=n=*" % (
+                       e("users"), e("/users-svc"), e("orders"), e("/orders-svc"), e("get_user"), e("users"),
+                       e("get_order"), e("orders"), e("whoami")),
+                   "caller 8 s=%s 7" % e("http://h"), "caller 9 s=%s 7" % e("http://h"),
+                   "call 8 %s get %s n n n E 0" % (e("get_user"), e("/u/3")), "call 8 %s get %s n n n E 0" % (e("get_order"), e("/o/4")),
+                   "call 8 %s get %s n n n E 0" % (e("whoami"), e("/me")), "call 9 %s get %s n n n E 0" % (e("whoami"), e("/me")),
+                   "call 9 %s get %s n n n E 0" % (e("get_order"), e("/o/4")), "call 9 %s get %s n n n E 0" % (e("get_user"), e("/u/3"))]},
         # mix-ins with a same-named wrapper bound to different components; diamond where one branch overrides
         {"lines": ["class 1 1 - ~ %s=%s" % (e("status"), e("front")), "class 2 2 - ~ %s=%s" % (e("status"), e("back")),
                    "class 3 3;1;2 1;2 %s=%s;%s=%s -" % (e("front"), e("/front/api"), e("back"), e("/back")),
@@ -1887,9 +1982,9 @@ def observable(i, line):
 
 RULE = ("operation histories (3-10 steps, every tenth 10-24) over HttpConn / BAuthConn / ClientAuthConn / TokenAuthConn on "
         "str / list / dict addresses, prefix / auth / tracing adapters and response processors with real transformations "
-        "(unwrap, len, filter, nullify, raising) given singly or as (re-used, later mutated) lists, add_adapter on any "
+        "(unwrap, len, filter, nullify, raising) and adapters that rebind req_args.params / .data / .headers, given singly or as (re-used, later mutated) lists, add_adapter on any "
         "layer, MCallerHttp subclasses (single, chains that override wrappers / the prefix map, mix-ins and diamonds with "
-        "same-named wrappers bound to different components, wrappers whose body calls another wrapper), a fifth of the "
+        "same-named wrappers bound to different components, wrappers whose body calls another wrapper, wrappers that reach get_conn() through a shared helper), a fifth of the "
         "histories with the package's logger at DEBUG, clone with nothing / one adapter / a list, component calls "
         "through the prefix cache, params as str dicts / dicts with non-str values / lists and tuples of pairs with repeated "
         "keys, requests with every verb and raw do_request methods, str / bytes / json bodies, caller header and "
@@ -1913,9 +2008,10 @@ THEOREMS = [
     "C17.add_chain", "C17.chain_once", "C17.prefix_outermost", "C17.prefix_join", "C17.auth_once", "C17.auth_none",
     "C17.auth_accepts", "C17.auth_refused", "C17.auth_decodes", "C17.auth_decodes_b64", "C17.literals", "C17.url",
     "C17.url_one_slash", "C17.params_all_pairs", "C17.method", "C17.body", "C17.dumps_shape", "C17.response_chain",
-    "C17.request_response", "C17.exception_propagates", "C17.frame", "C17.frame_reachable", "C17.chain_stable",
-    "C17.aliasing_facts", "C17.caller_unchanged", "C17.clone_list", "C17.get_conn_cached", "C17.get_conn_first",
-    "C17.call_component", "C17.nested_call_innermost", "C17.metas_first_base", "C17.caller_pmap",
+    "C17.rebinding_adapters", "C17.request_uses_rebound", "C17.request_response", "C17.exception_propagates",
+    "C17.frame", "C17.frame_reachable", "C17.chain_stable", "C17.aliasing_facts", "C17.caller_unchanged",
+    "C17.clone_list", "C17.get_conn_cached", "C17.get_conn_first", "C17.call_component", "C17.nested_call_innermost",
+    "C17.metas_first_base", "C17.caller_pmap",
 ]
 
 LEVEL_TEXT = ("Kernel-checked for all heaps/histories/arguments on a heap model of conn_http/mcaller_http (explicit "
